@@ -87,6 +87,13 @@ func genC04(w *World, res *CheckResult) {
 		res.Obls = append(res.Obls, selectObls(tmp.Obls, `^lexer\.unescapeChar/(safe:|loop:|pre-sat|cover:returns)`)...)
 		res.Functions = append(res.Functions, "lexer.unescapeChar")
 	}
+	// (1d) FindSuitableOperatorOverload indexes In(1)/In(2)/Out(0) of every registered operator function without a
+	// guard: Config.Check must have rejected every function of another shape
+	{
+		tmp := &CheckResult{Extra: map[string]interface{}{}}
+		genC17(w, tmp)
+		res.Obls = append(res.Obls, selectObls(tmp.Obls, `^conf\.Config\.Check/loop:1/body\[well-shaped\]$`, `^conf\.Config\.Check/loop:1/inv-`)...)
+	}
 	// (2) every node kind has a case in the type switches that run outside a recover
 	genSwitchCoverage(w, res, "checker.visitor.visit", 1)
 	// (3) recover scopes: result shape
